@@ -213,6 +213,20 @@ def fam_storage_hold_T(T=4):
     return out
 
 
+def fam_storage_hold_dst(T=5):
+    """maximum holding duration on grids whose steps differ in length (days across the CET switches, months): the limit lies between the
+    lengths of two windows of the same number of steps, so which stretches are allowed depends on WHERE they lie"""
+    ids = Ids()
+    out = []
+    for (dt, cal, mh, q), pr in itertools.product([([24, 23, 24, 24], None, 47, 24), ([24, 25, 24, 24], None, 48, 24), ([24, 25, 24, 24], None, 49, 24),
+                                                   ([31, 28, 31, 30, 31], 'month', 59, 31), ([31, 28, 31, 30, 31], 'month', 61, 31)],
+                                                  ([1, 5, 2, 6, 3], [4, 1, 1, 5, 2], [1, 2, 1, 3, 6])):
+        dt = (dt + [dt[-1]] * T)[:T]
+        s = F.storage(T, 'n1', size=2 * max(dt), cin=1, cout=1, maxhold=mh, q=q)
+        out.append(F.make_cfg(ids(), T, [slack(T, 'n1', (pr * T)[:T], lo=-2, hi=2, q=q), s], dt=dt, **(dict(cal=cal) if cal else {})))
+    return out
+
+
 def fam_storage_blocks(T=4, thorough=False, inflow=(0,)):
     """time blocks: block_size '2h' on an hourly grid; window from grid start (blocks anchored at the asset start)"""
     ids = Ids()
@@ -486,6 +500,28 @@ def fam_coarse(thorough=False):
         group = [(s - 1) // 2 + 1 for s in range(1, T + 1)]       # coarse step of 2 fine steps, anchored at the grid start
         for name, assets in _kinds_c13(T, dict(group=group, freq='2h'), win):
             out.append(F.make_cfg(ids(), T, assets, variant=name, option='coarse'))
+    return out
+
+
+def fam_coarse_dst():
+    """coarse asset frequency on grids whose steps differ in length (calendar days across the CET switches, asset frequency two days):
+    constant RATE inside a coarse step means volumes proportional to the step lengths; limits and weights follow the real lengths"""
+    ids = Ids()
+    out = []
+    T = 4
+    group = [1, 1, 2, 2]
+    extra = dict(group=group, freq='2d', q=24)
+    for dt in ([24, 23, 24, 24], [24, 25, 24, 24], [24, 24, 23, 24]):
+        cal = {23: 'spring', 25: 'fall'}[min(dt) if min(dt) < 24 else max(dt)] if dt[1] != 24 else 'spring_late'
+        pr = [1, 3, 2, 6]
+        ks = [('contract1', [F.contract(T, 'n1', -1, 1, pr, **extra), slack(T, 'n1', [3, 1, 4, 2], lo=-1, hi=1, q=24)]),
+              ('contract2', [F.contract(T, 'n1', -1, 1, pr, ec=1, **extra), slack(T, 'n1', [3, 1, 4, 2], lo=-1, hi=1, q=24)]),
+              ('transport', [slack(T, 'n1', [2, 2, 3, 3], lo=-1, hi=1, q=24), F.transport(T, 'n1', 'n2', 0, 1, cost=1, **extra), slack(T, 'n2', [3, 1, 6, 2], lo=-1, hi=1, q=24)]),
+              ('storage1', [slack(T, 'n1', pr, lo=-1, hi=1, q=24), F.storage(T, 'n1', size=60, cin=1, cout=1, **extra)]),
+              ('contract_take', [F.contract(T, 'n1', 0, 1, [1] * T, takes=[dict(s=0, e=sum(dt), vol=sum(dt[:2]), sense='max')], force_contract=True, **extra),
+                                 slack(T, 'n1', [3, 1, 4, 2], lo=-1, hi=0, q=24)])]
+        for name, assets in ks:
+            out.append(F.make_cfg(ids(), T, assets, dt=dt, cal=cal, variant=name, option='coarse_dst'))
     return out
 
 
